@@ -79,6 +79,25 @@ def oracle(ex, table, n, nbands):
     return out
 
 
+def chain(table, n):
+    """Bands the stitching rule reads, newest first."""
+    out, b = [], n
+    while True:
+        state = table.get(b, ('absent', []))[0]
+        if state in ('open', 'closed'):
+            out.append(b)
+        if state == 'closed':
+            return out
+        nb = None
+        for cand in range(b - 1, -1, -1):
+            if table.get(cand, ('absent', []))[0] in ('open', 'closed'):
+                nb = cand
+                break
+        if nb is None:
+            return out
+        b = nb
+
+
 def make_harness(prog, shape, n, max_yield=40):
     new = A.fn_by(prog, 'Stitch', None, 'new')
     nxt = A.fn_by(prog, 'Stitch', None, 'next')
@@ -100,6 +119,11 @@ def make_harness(prog, shape, n, max_yield=40):
         want = oracle(ex, table, n, len(shape))
         nerr = len(ex.env['monitor'].errors)
         want_err = 0 if table.get(n, ('absent', []))[0] in ('open', 'closed') else 1
+        # hunks are numbered from zero without gaps; a band on the chain whose numbering has a gap is damaged and must be reported once
+        for b in chain(table, n):
+            nums = [hn for (hn, _cnt) in shape[b][1]]
+            if nums != list(range(len(nums))):
+                want_err += 1
         if nerr != want_err:
             got = got + ['errors=%d' % nerr]
             want = want + ['errors=%d' % want_err]
@@ -279,8 +303,9 @@ from . import apath as AP
 
 
 def name_char(ex, label):
-    c = ex.fresh_int(label, 0x2d, 0x7a)      # '-' and '.' sort below '/', letters above
+    c = ex.fresh_int(label, 0x2d, 0x7a)      # '-' sorts below '/', digits and letters above
     ex.assume(c != 0x2f)
+    ex.assume(c != 0x2e)                     # a component "." is not a valid apath (the reader rejects such an index entry)
     return c
 
 
@@ -289,7 +314,6 @@ def shaped_path(ex, label):
     if ex.branch(ex.fresh_bool(label + '_deep'), 'path form'):
         return SymStr([ord('/'), name_char(ex, label + 'd'), ord('/'), name_char(ex, label + 'c')], 4)
     c = name_char(ex, label + 'c')
-    ex.assume(c != 0x2e)
     return SymStr([ord('/'), c], 2)
 
 
